@@ -339,6 +339,7 @@ class SyncWorld:
                          'site': site_of_tb(e.__traceback__)}
             finally:
                 c.t_done = w.clock.now
+                c.step_done = w.nstep
                 if not w.sched.killing:
                     c.done = True
         self.vts[c] = self.sched.spawn(worker, 'call%d' % c.cid, 'env')
